@@ -29,6 +29,8 @@ PLAIN=()
 if [ "$REPO" != /repo ]; then PLAIN=(-overlay "$OUT/ov/plain.json"); fi
 go1.26 build "${PLAIN[@]}" -o "$OUT/vplugin" ./cmd/vplugin
 go1.26 test "${PLAIN[@]}" -c -vet=off -o "$OUT/e3.test" ./e3/
+# helper of C15's recycled-pid histories (optional: without a C compiler those histories report "undecided")
+( cc -O1 -o "$OUT/pidspawn" tools/pidspawn/pidspawn.c || clang -O1 -o "$OUT/pidspawn" tools/pidspawn/pidspawn.c ) 2>/dev/null || echo "build.sh: no pidspawn helper (no C compiler)" >&2
 # E3 once more with the toolchain that the repository's own go.mod selects (its suite and its users build with that one):
 # standard-library behaviour differs between toolchains (crypto/tls session resumption, for one)
 REPOGO=$(cd "$REPO" && env -u GOTOOLCHAIN go env GOVERSION 2>/dev/null || true)
